@@ -268,7 +268,7 @@ fn decoder_image_zinc(len: usize, idx: usize, local: &mut Local) {
     }
 }
 
-fn json_docs() -> Vec<String> {
+pub fn json_docs() -> Vec<String> {
     // Hayson-shaped documents with every kind tag and fields from a pool that includes wrong types
     let fields: Vec<&str> = vec!["\"\"", "\"a\"", "\"é\"", "\"😀x\"", "1", "-0.0", "1e400", "null", "true", "[]", "{}", "\"2021-01-01\"", "\"12:00:00\"", "\"2021-01-01T00:00:00Z\"", "\"2021-01-01T00:00:00+05:30\"", "\"New_York\"", "\"kW\"", "\"INF\"", "\"NaN\""];
     let kinds = ["marker", "remove", "na", "number", "ref", "symbol", "uri", "date", "time", "dateTime", "coord", "xstr", "grid", "dict", "bogus"];
@@ -294,6 +294,15 @@ fn json_docs() -> Vec<String> {
                 }
             }
         }
+    }
+    // grid parts of the wrong JSON type
+    for a in &fields {
+        out.push(format!("{{\"_kind\":\"grid\",\"cols\":[{a}],\"rows\":[]}}"));
+        out.push(format!("{{\"_kind\":\"grid\",\"cols\":[{{\"name\":\"a\"}}],\"rows\":[{a}]}}"));
+        out.push(format!("{{\"_kind\":\"grid\",\"cols\":[{{\"name\":\"a\"}},{a}],\"rows\":[{{\"a\":1}},{a}]}}"));
+        out.push(format!("{{\"_kind\":\"grid\",\"meta\":{a},\"cols\":[{{\"name\":\"a\",\"meta\":{a}}}],\"rows\":[{{\"a\":{a}}}]}}"));
+        out.push(format!("{{\"_kind\":{a}}}"));
+        out.push(format!("{{\"_kind\":{a},\"val\":{a}}}"));
     }
     for a in &fields {
         out.push(a.to_string());
